@@ -42,6 +42,27 @@ Proof.
   - eexists; split; reflexivity.
 Qed.
 
+Lemma hdef_ranked_RL lvl e : efrag lvl e = true -> exists p, ref_rank (hdef e) = Some p /\ p < ROUND_LIMIT.
+Proof.
+  intros F. destruct e; try discriminate F; unfold hdef; cbn [head_tt].
+  - destruct l; eexists; split; reflexivity.
+  - eexists; split; reflexivity.
+  - eexists; split; reflexivity.
+  - destruct o; eexists; split; reflexivity.
+  - destruct o; eexists; split; reflexivity.
+  - eexists; split; reflexivity.
+  - eexists; split; reflexivity.
+  - destruct k; eexists; split; reflexivity.
+  - eexists; split; reflexivity.
+  - destruct neg; eexists; split; reflexivity.
+  - eexists; split; reflexivity.
+  - eexists; split; reflexivity.
+  - eexists; split; reflexivity.
+Qed.
+
+Lemma inside_below d p q : ref_rank d = Some p -> p < q -> inside d q = true.
+Proof. intros H L. unfold inside. rewrite H. apply N.ltb_lt in L. rewrite L. reflexivity. Qed.
+
 Lemma rrank_spec lvl e : efrag lvl e = true -> ref_rank (hdef e) = Some (rrank e).
 Proof. intros F. destruct (hdef_ranked lvl e F) as (p & Hp & _). unfold rrank. rewrite Hp. reflexivity. Qed.
 
@@ -210,15 +231,15 @@ Proof.
   - (* round group *)
     cbn [efrag] in F. pose proof (paren_ok_group _ P) as Px.
     cbn [eitems rtree_of_expr] in *. cbn [app]. rewrite <- app_assoc. cbn [app].
-    eapply C_open; [|exact HC].
+    eapply C_open; [|exact HC]. cbn [blimit].
     apply (IH x); [cbn [size]; lia|exact F|exact Px| | |].
-    + intros _. eapply inside_INF; [apply (rrank_spec lvl x F)|apply (rrank_lt_INF lvl x F)].
+    + intros _. destruct (hdef_ranked_RL lvl x F) as (p0 & Hp0 & Hl0). eapply inside_below; [exact Hp0|exact Hl0].
     + exact I.
     + apply C_close.
   - (* nested expression: the braces are brackets *)
     cbn [efrag] in F. apply andb_true_iff in F. destruct F as [_ F]. pose proof (paren_ok_nested _ _ P) as Px.
     cbn [eitems rtree_of_expr] in *. cbn [app]. rewrite <- app_assoc. cbn [app].
-    eapply C_open; [|exact HC].
+    eapply C_open; [|exact HC]. cbn [blimit].
     apply (IH b); [cbn [size]; lia|exact F|exact Px| | |].
     + intros _. eapply inside_INF; [apply (rrank_spec lvl b F)|apply (rrank_lt_INF lvl b F)].
     + exact I.
